@@ -79,6 +79,14 @@ def cases(tier, seed):
         for f in ("r/a/f1", "r/b/f2"):
             for m in (MUTATIONS if tier == "thorough" else ("rewrite_same_len", "recreate_other", "touch")):
                 out.append({"tree": "pair", "f": f, "mutation": m, "tier": tier, "tz": tz, "tz_dedupe": tz2})
+    # the change lands while the TRANSFORM program of that very file is running (`group --transform`): after the program
+    # has read the file, before it exits - the k-th program started is held until the change has been made
+    for k in range(3):
+        for m in (MUTATIONS if tier == "thorough" else ("rewrite_same_len", "recreate_other", "append", "touch")):
+            if m == "to_fifo":
+                continue
+            for mode in (("pipe", "in") if tier == "thorough" or m == "rewrite_same_len" else ("pipe",)):
+                out.append({"kind": "during_transform", "tree": "pair", "at": k, "mutation": m, "mode": mode, "tier": tier})
     # the change lands while the DEDUPE command is already running - after it has dealt with an earlier group, before
     # it inspects the group of the changed file (both groups have members in the same directory)
     for f in ("r/d/k1", "r/d/k2"):
@@ -93,6 +101,78 @@ def cases(tier, seed):
 SAME_DIR = [{"p": "r/d/a1", "k": "file", "c": ["base", 9000, 1]}, {"p": "r/d/a2", "k": "file", "c": ["base", 9000, 1]},
             {"p": "r/d/k1", "k": "file", "c": ["base", 3000, 2]}, {"p": "r/d/k2", "k": "file", "c": ["base", 3000, 2]},
             {"p": "r/e/k3", "k": "file", "c": ["base", 3000, 2]}]
+
+
+def evaluate_during_transform(case):
+    import hashlib
+    viol = []
+    states = 0
+    reached = []
+    ops = OPS if case["tier"] == "thorough" else ("remove", "link")
+    with C.Scratch() as sc:
+        target = os.path.join(sc.root, "moved")
+        snap = os.path.join(sc.root, "snap")
+        C.make_tree(sc.tree, TREES[case["tree"]])
+        sdir = os.path.join(sc.root, "sync")
+        os.makedirs(sdir)
+        tr = "fcv-tr synckeep" + (" $IN" if case["mode"] == "in" else "")
+        env = sc.env({"FCV_TR_SYNC_DIR": sdir, "FCV_TR_SYNC_AT": str(case["at"])})
+        p = subprocess.Popen([C.b(C.FCLONES), b"group", b"-t", b"1", b"--transform", C.b(tr), b"r"], cwd=C.b(sc.tree), env=env,
+                             stdin=subprocess.DEVNULL, stdout=subprocess.PIPE, stderr=subprocess.PIPE)
+        t0 = time.time()
+        changed = None
+        while time.time() - t0 < 20 and p.poll() is None:
+            if os.path.exists(os.path.join(sdir, "read_done")):
+                digest, _, where = open(os.path.join(sdir, "read_done"), errors="surrogateescape").read().partition("\n")
+                digest, where = digest.strip(), where.strip()
+                # (the pair holds the same bytes: the program may have read either of them; the one it is working on
+                # is the one fclones has open - take the member whose name sorts first among those with that content
+                # and that has not been transformed yet: with -t 1 files are handled one at a time)
+                cands = sorted(q for q in (os.path.join(dp, fn) for dp, dn, fns in os.walk(sc.tree) for fn in fns)
+                               if hashlib.sha256(C.read_file(q)).hexdigest() == digest)
+                seen = len([x for x in os.listdir(sdir) if x.startswith("seen-")])
+                # pipe mode: the program's standard input IS the scanned file; $IN mode: it got a private copy - the
+                # k-th program works on the k-th file of that content (single-threaded run, files in walk order)
+                changed = where if where.startswith(sc.tree + "/") else (cands[min(len(cands) - 1, case["at"])] if cands else None)
+                if changed:
+                    mutate(changed, case["mutation"], sc)
+                open(os.path.join(sdir, "go"), "w").close()
+                break
+            time.sleep(0.005)
+        out, err = p.communicate(timeout=60)
+        if changed is None:
+            return {"violations": [], "states": 0, "transitions": 0, "evaluations": 0, "nontrivial": None, "outcome": "transform_not_reached",
+                    "counters": {"changes_during_a_transform": 0}}
+        if p.returncode != 0:
+            viol.append({"kind": "group_failed", "mutation": case["mutation"], "phase": "during_the_transform", "op": "group",
+                         "detail": "rc=%s %s" % (p.returncode, err.decode("utf-8", "replace")[-300:])})
+            return {"violations": viol, "states": 1, "transitions": 1, "evaluations": 1, "nontrivial": None, "outcome": "explored",
+                    "counters": {"changes_during_a_transform": 1}}
+        report = out
+        subprocess.run(["cp", "-a", sc.tree, snap], check=True)
+        for op in ops:
+            C.rmtree(sc.tree)
+            C.rmtree(target)
+            subprocess.run(["cp", "-a", snap, sc.tree], check=True)
+            before = C.inventory(sc.tree)
+            r = D.run_dedupe(sc, op, [], report, target=target)
+            after = C.inventory(sc.tree, target) if os.path.exists(target) else C.inventory(sc.tree)
+            states += 1
+            reached.append(["during_transform", case["at"], case["mutation"], case["mode"], op])
+            sb = set(x["sha"] for x in before.values() if x["type"] == "file")
+            sa = set(x["sha"] for x in after.values() if x["type"] == "file")
+            feat = {"mutation": case["mutation"], "phase": "during_the_transform_of_the_file", "op": op,
+                    "target_is_retained_member": changed.endswith("f1"), "isolate": False, "report_from_stdout_fallback": False,
+                    "timezone": "UTC", "dedupe_in_other_timezone": False}
+            if sb - sa:
+                who = sorted(q for q, x in before.items() if x.get("sha") in (sb - sa))
+                viol.append(dict(feat, kind="changed_data_removed",
+                                 detail="%s changed (%s) while its transform program (`%s`, call %d) was running, after the program had read it; "
+                                        "`%s` on the report then destroyed the only copy of the content of %s" % (
+                                            changed[len(sc.tree):], case["mutation"], tr, case["at"], op, who)))
+    return {"violations": viol, "states": states, "transitions": states, "evaluations": states, "nontrivial": reached,
+            "outcome": "explored", "counters": {"changes_during_a_transform": 1},
+            "sample": {"during_transform": case}}
 
 
 def evaluate_during_dedupe(case):
@@ -236,6 +316,8 @@ def mutate(path, m, scratch):
 def evaluate(case):
     if case.get("kind") == "during_dedupe":
         return evaluate_during_dedupe(case)
+    if case.get("kind") == "during_transform":
+        return evaluate_during_transform(case)
     tier = case.get("tier", "quick")
     viol = []
     states = 0
